@@ -1209,7 +1209,8 @@ impl SeqParameterSet {
 
     /// From the spec: `PicSizeInMapUnits = PicWidthInMbs * PicHeightInMapUnits`
     pub fn pic_size_in_map_units(&self) -> u32 {
-        self.pic_width_in_mbs() * self.pic_height_in_map_units()
+        self.pic_width_in_mbs()
+            .saturating_mul(self.pic_height_in_map_units())
     }
 }
 
